@@ -114,7 +114,8 @@ pub fn synthesize(wasm: &[u8], a: &AMod, version: u16, span: usize) -> (Vec<u8>,
     let n2 = LineString::new(&b"b.c"[..], encoding, &mut dwarf.line_strings);
     let f1 = program.add_file(n1, dir, None);
     let f2 = program.add_file(n2, dir, None);
-    let content = a.code_section_range.unwrap().0 as u64;
+    // a module without a code section: a unit with no line sequences and no subprograms
+    let content = a.code_section_range.map(|r| r.0).unwrap_or(0) as u64;
     let mut info = InDwarf { version, ..Default::default() };
     let mut line = 1u64;
     let nf = a.code.len();
